@@ -94,6 +94,14 @@ func H_STEP() {
 		vf.Freeze(before, "catalog snapshot taken before the write")
 	}
 	out := runOp(txn)
+	if vf.Param("ops", 1) == 2 && prop == pC03 {
+		// a second write while the reader still holds its snapshot (e.g. delete the newest document,
+		// then insert: structures shared between catalog generations must never be written in place)
+		k2 := vf.Choice("op2", opCount)
+		second := vf.Param("op", -1)
+		_ = second
+		runOp2(txn, k2)
+	}
 	if prop&(pC02|pC03) != 0 {
 		vf.Unfreeze()
 	}
@@ -117,6 +125,10 @@ func H_STEP() {
 		} else {
 			uniq := IsUniquenessError(out.err)
 			vf.ObserveBool("uniq", uniq)
+			// exactness: a write is rejected for uniqueness only if it would create a duplicate
+			if uniq && out.kind == opInsert && out.inserted != nil {
+				vf.Assert(hasDuplicate(append(append(bsonkit.List{}, beforeDocs...), out.inserted), idx), "an insert that creates no duplicate key was rejected with a uniqueness error")
+			}
 		}
 	}
 	if prop&pC08 != 0 {
@@ -145,6 +157,31 @@ func H_STEP() {
 				r := findByID(replayed, bsonkit.Get(d, "_id"))
 				vf.Assert(r != nil && vf.EqualValues(*r, *d), "replaying the logged events does not reproduce a document")
 			}
+			// update events: applying updatedFields / removedFields to the previous version of the
+			// document yields the new version (up to field order)
+			for _, ev := range newEvents {
+				if op, _ := bsonkit.Get(ev, "operationType").(string); op != "update" {
+					continue
+				}
+				old := findByID(beforeDocs, bsonkit.Get(ev, "documentKey._id"))
+				full, ok := bsonkit.Get(ev, "fullDocument").(bson.D)
+				vf.Assert(old != nil && ok, "an update event does not refer to an existing document")
+				patched := bsonkit.Clone(old)
+				if upd, ok := bsonkit.Get(ev, "updateDescription.updatedFields").(bson.D); ok {
+					for _, f := range upd {
+						_, err := bsonkit.Put(patched, f.Key, f.Value, false)
+						vf.Assert(err == nil, "an updated field of an update event cannot be applied")
+					}
+				}
+				if rem, ok := bsonkit.Get(ev, "updateDescription.removedFields").(bson.A); ok {
+					for _, r := range rem {
+						if path, ok := r.(string); ok {
+							bsonkit.Unset(patched, path)
+						}
+					}
+				}
+				vf.Assert(sameFields(*patched, full), "applying the recorded updated/removed fields to the previous version does not yield the new version")
+			}
 			// exactly one event per modified document; none for documents that did not change
 			changed := 0
 			for _, d := range afterDocs {
@@ -161,6 +198,25 @@ func H_STEP() {
 			vf.Assert(len(newEvents) == changed, "number of logged events differs from the number of changed documents")
 		}
 	}
+}
+
+// sameFields: equal as sets of top-level fields (order-insensitive), values bit-identical
+func sameFields(a, b bson.D) bool {
+	if len(a) != len(b) {
+		return false
+	}
+	for _, e := range a {
+		found := false
+		for _, f := range b {
+			if e.Key == f.Key && vf.EqualValues(e.Value, f.Value) {
+				found = true
+			}
+		}
+		if !found {
+			return false
+		}
+	}
+	return true
 }
 
 func sameDocs(a, b bsonkit.List) bool {
